@@ -123,7 +123,7 @@ pub fn entropy_reference(mode: Mode, version: u8, size: Size, salt: u64) -> Pic 
 /// Decode reference + P and compare with the model. Returns the model's statistics.
 fn run_field(mode: Mode, version: u8, size: Size, specs: &[Spec]) -> Result<ModelStats, String> {
     let refpic = entropy_reference(mode, version, size, 0);
-    let mut st = H263State::new(options(mode, false));
+    let mut st = H263State::new(options_scal(mode, specs.len() % 2 == 1 || version == 1));
     match decode_bytes(&mut st, &encode_pic(&refpic)) {
         Outcome::Ok => {}
         o => return Err(format!("reference picture not decoded: {}", o.short())),
